@@ -60,6 +60,27 @@ Theorem isolation_checker_sound B opaque cls : isolatedb B opaque cls = true -> 
 Proof. exact (isolatedb_sound B opaque cls). Qed.
 Print Assumptions isolation_checker_sound.
 
+(* Recycled objects (sync.Pool): whatever earlier requests left in the object, if every field
+   the response shows is written by this request after Get, the response is a function of this
+   request's own values ... *)
+Theorem pool_reuse_isolated (V : Type) (o : pobj V) ws rs (own : nat -> V) :
+  (forall f, In f rs -> In f ws) -> pobserve V (pfill V o ws own) rs = map own rs.
+Proof. exact (pool_reuse_lemma V o ws rs own). Qed.
+Print Assumptions pool_reuse_isolated.
+
+(* ... and it is not when one shown field is left as found (the shape of an error response
+   struct recycled without resetting its temporary / timeout flags). *)
+Theorem pool_reuse_partial_init_refuted :
+  exists (o : pobj bool) ws rs own, ~ (forall f, In f rs -> In f ws) /\
+    pobserve bool (pfill bool o ws own) rs <> map own rs.
+Proof.
+  exists (fun _ => true), [0; 1; 2; 5], [0; 1; 2; 3; 4; 5], (fun _ => false). split.
+  - intro H. specialize (H 3 (or_intror (or_intror (or_intror (or_introl eq_refl))))).
+    simpl in H. intuition discriminate.
+  - vm_compute. discriminate.
+Qed.
+Print Assumptions pool_reuse_partial_init_refuted.
+
 (* ---------- non-vacuity ---------- *)
 
 (* the shape of goa.ValidatePattern: read under RLock, write under Lock *)
